@@ -185,6 +185,10 @@ def gen_case(rng: random.Random, cfg: str | None = None, max_nodes: int = 8, fra
             spec["prebuilt_no_lineage"] = True
     if rng.random() < 0.5:
         spec["w_unregistered"] = True   # the custom edge feature is registered later (or never)
+    if cfg == "seg" and not spec.get("prebuilt") and spec.get("via") in (None, "deepcopy") and rng.random() < 0.15:
+        # computed features renamed (annotators.change_key) while still inactive, enabled under the new key
+        names = {F.K_IOU: "overlap", F.K_CIRC: "roundness", F.K_PERIM: "border", F.K_ELL: "axes_radii"}
+        spec["rename"] = {str(k): names[k] for k in rng.sample(sorted(names), rng.randint(1, 2))}
     return spec
 
 
